@@ -1,9 +1,13 @@
-(* C17: iteration over DIST arrays (arbitrary segment -> shepherd assignment, e.g. DIST_RAND) is exact for every
-   range that starts on a segment boundary. *)
+(* C17: iteration over DIST arrays (arbitrary segment -> shepherd assignment, e.g. DIST_RAND) is exact for EVERY
+   non-empty range [start, stop), aligned to segment boundaries or not. *)
 From Coq Require Import List NArith ZArith Bool Lia ZifyBool ZifyN ZifyNat Arith.
 From QV Require Import Qarray.Model Qarray.Proofs Qarray.ProofsHash.
 Import ListNotations.
 Local Open Scope N_scope.
+
+Lemma seg_unique (ss i x y : N) :
+  x * ss <= i < (x + 1) * ss -> y * ss <= i < (y + 1) * ss -> x = y.
+Proof. intros [H1 H2] [H3 H4]. nia. Qed.
 
 Section Dist.
   Variable n : N.
@@ -61,21 +65,23 @@ Section Dist.
              apply IH; try lia.
   Qed.
 
-  Lemma covers_chunks_dist fuel s q m i :
-    q * ss < m -> asg q = s -> (N.to_nat (m / ss + 1 - q) <= fuel)%nat ->
-    covers (chunks n asg fuel a s (q * ss) m) i =
-    if (q * ss <=? i) && (i <? m) && (asg (i / ss) =? s) then 1%nat else 0%nat.
+  Lemma covers_chunks_dist fuel s c m i :
+    c < m -> asg (c / ss) = s -> (N.to_nat (m / ss + 1 - c / ss) <= fuel)%nat ->
+    covers (chunks n asg fuel a s c m) i =
+    if (c <=? i) && (i <? m) && (asg (i / ss) =? s) then 1%nat else 0%nat.
   Proof.
-    revert q. induction fuel as [|f IH]; intros q Hq Hown Hf.
-    { pose proof (q_le_div _ _ Hq). lia. }
+    revert c. induction fuel as [|f IH]; intros c Hq Hown Hf.
+    { assert (c / ss <= m / ss) by (apply N.div_le_mono; [exact ss_ne' | lia]). lia. }
     cbn [chunks]. rewrite K. fold ss. cbn [covers].
     pose proof (div_bounds' i) as [Hlo Hhi]. set (qi := i / ss) in *.
-    pose proof (q_le_div _ _ Hq) as Hqm.
-    replace (q * ss + ss) with ((q + 1) * ss) by lia.
-    set (mo := if ss <? m - q * ss then ss else m - q * ss).
-    assert (Hmo : mo = N.min ss (m - q * ss)).
-    { unfold mo. destruct (ss <? m - q * ss) eqn:E; lia. }
-    (* the part after the first range *)
+    pose proof (N.div_mod c ss ss_ne') as Hc. pose proof (N.mod_lt c ss ss_ne') as Hr.
+    set (q := c / ss) in *. set (r := c mod ss) in *.
+    assert (Hqm : q <= m / ss) by (apply N.div_le_mono; [exact ss_ne' | lia]).
+    replace (c - r + ss) with ((q + 1) * ss) by lia.
+    set (mo := if ss - r <? m - c then ss - r else m - c).
+    assert (Hmo : c + mo = N.min ((q + 1) * ss) m).
+    { unfold mo. destruct (ss - r <? m - c) eqn:E; lia. }
+    assert (Hdv : forall x, (x * ss) / ss = x) by (intros x; apply N.div_mul; exact ss_ne').
     assert (Hrest :
       covers (if m <=? (q + 1) * ss then [] else
               match seek n asg f a s ((q + 1) * ss) m with
@@ -92,7 +98,7 @@ Section Dist.
         destruct (seek n asg f a s ((q + 1) * ss) m) as [c'|].
         + destruct Hsk as (q' & -> & Hle & Hlt & Hown' & Hskip).
           replace (m <=? q' * ss) with false by lia.
-          rewrite IH; [| exact Hlt | exact Hown' | lia].
+          rewrite IH; [| exact Hlt | rewrite Hdv; exact Hown' | rewrite Hdv; lia].
           fold qi.
           destruct (i <? m) eqn:B; [|rewrite !andb_false_r; reflexivity]. apply N.ltb_lt in B.
           destruct (q' * ss <=? i) eqn:A1.
@@ -109,103 +115,124 @@ Section Dist.
     rewrite Hrest. clear Hrest IH.
     destruct (i <? m) eqn:B.
     2:{ apply N.ltb_ge in B. rewrite !andb_false_r. cbn [andb].
-        replace (i <? q * ss + mo) with false by lia. rewrite andb_false_r. reflexivity. }
+        replace (i <? c + mo) with false by lia. rewrite andb_false_r. reflexivity. }
     apply N.ltb_lt in B.
-    destruct (q * ss <=? i) eqn:A1.
+    destruct (c <=? i) eqn:A1.
     2:{ apply N.leb_gt in A1. cbn [andb]. replace ((q + 1) * ss <=? i) with false by nia. reflexivity. }
     apply N.leb_le in A1. cbn [andb].
     destruct (N.lt_ge_cases i ((q + 1) * ss)) as [C|C].
-    - assert (qi = q) by nia.
-      replace (i <? q * ss + mo) with true by lia.
+    - assert (Hqq : qi = q) by (apply (seg_unique ss i); split; lia).
+      replace (i <? c + mo) with true by lia.
       replace ((q + 1) * ss <=? i) with false by lia. cbn [andb].
-      rewrite H, Hown, N.eqb_refl. reflexivity.
-    - replace (i <? q * ss + mo) with false by lia.
+      rewrite Hqq, Hown, N.eqb_refl. reflexivity.
+    - replace (i <? c + mo) with false by lia.
       replace ((q + 1) * ss <=? i) with true by lia. reflexivity.
   Qed.
 
-  Lemma seek_start_dist s q m :
-    q * ss < m ->
-    match seek_start n asg (fuel_of a m) a s (q * ss) m with
-    | Some c' => exists q', c' = q' * ss /\ q <= q' /\ q' * ss < m /\ asg q' = s /\
-                            forall q'', q <= q'' < q' -> asg q'' <> s
-    | None => forall q'', q <= q'' -> q'' * ss < m -> asg q'' <> s
+  Lemma seek_start_dist s start m :
+    start < m ->
+    match seek_start n asg (fuel_of a m) a s start m with
+    | Some c' => (c' = start /\ asg (start / ss) = s) \/
+                 (exists q', c' = q' * ss /\ start / ss < q' /\ q' * ss < m /\ asg q' = s /\
+                             forall q'', start / ss <= q'' < q' -> asg q'' <> s)
+    | None => forall q'', start / ss <= q'' -> (q'' = start / ss \/ q'' * ss < m) -> asg q'' <> s
     end.
   Proof.
-    intros Hq. unfold seek_start. fold ss. rewrite shepof_dist_aligned.
-    assert (Hfuel : (N.to_nat (m / ss + 1 - q) <= fuel_of a m)%nat) by (unfold fuel_of, ss; set (x := m / d_segsize a); lia).
-    destruct ((0 <? q * ss) && negb (asg q =? s)) eqn:E.
+    intros Hsm. unfold seek_start. fold ss. rewrite shepof_dist.
+    pose proof (N.div_mod start ss ss_ne') as Hd. pose proof (N.mod_lt start ss ss_ne') as Hr.
+    set (q0 := start / ss) in *. set (r := start mod ss) in *.
+    assert (Hfuel : forall q, (N.to_nat (m / ss + 1 - q) <= fuel_of a m)%nat).
+    { intros q. unfold fuel_of, ss. set (x := m / d_segsize a). lia. }
+    destruct ((0 <? start) && negb (asg q0 =? s)) eqn:E.
     - apply andb_prop in E. destruct E as [_ E]. apply negb_true_iff in E. apply N.eqb_neq in E.
-      rewrite N.mod_mul by exact ss_ne'. rewrite N.sub_0_r.
-      replace (q * ss + ss) with ((q + 1) * ss) by lia.
-      destruct (m <=? (q + 1) * ss) eqn:E2.
-      + apply N.leb_le in E2. intros q'' H1 H2. assert (q'' = q) by nia. subst. exact E.
-      + apply N.leb_gt in E2. pose proof (seek_dist (fuel_of a m) s (q + 1) m E2) as Hsk.
-        destruct (seek n asg (fuel_of a m) a s ((q + 1) * ss) m) as [c'|].
+      replace (start + (ss - r)) with ((q0 + 1) * ss) by lia.
+      destruct (m <=? (q0 + 1) * ss) eqn:E2.
+      + apply N.leb_le in E2. intros q'' H1 [->|H2]; [exact E|]. assert (Hqe : q'' = q0) by nia. rewrite Hqe. exact E.
+      + apply N.leb_gt in E2. pose proof (seek_dist (fuel_of a m) s (q0 + 1) m E2) as Hsk.
+        destruct (seek n asg (fuel_of a m) a s ((q0 + 1) * ss) m) as [c'|].
         * destruct Hsk as (q' & -> & Hle & Hlt & Hown & Hskip).
-          exists q'. repeat split; try lia. intros q'' Hr.
-          destruct (N.eq_dec q'' q) as [->|]; [exact E | apply Hskip; lia].
-        * intros q'' H1 H2. destruct (N.eq_dec q'' q) as [->|]; [exact E|].
-          apply Hsk; lia.
-    - pose proof (seek_dist (fuel_of a m) s q m Hq) as Hsk.
-      destruct (seek n asg (fuel_of a m) a s (q * ss) m) as [c'|]; [exact Hsk|].
-      apply Hsk. exact Hfuel.
+          right. exists q'. repeat split; try lia. intros q'' Hrq.
+          destruct (N.eq_dec q'' q0) as [->|]; [exact E | apply Hskip; lia].
+        * intros q'' H1 H2. destruct (N.eq_dec q'' q0) as [->|]; [exact E|].
+          apply Hsk; [apply Hfuel | lia | destruct H2; [congruence | assumption]].
+    - apply andb_false_iff in E. destruct E as [E|E].
+      + (* start = 0: aligned *)
+        apply N.ltb_ge in E. assert (Hs0 : start = 0) by lia.
+        assert (Hq00 : q0 = 0) by (unfold q0; rewrite Hs0; apply N.div_0_l; exact ss_ne').
+        replace start with (0 * ss) by lia.
+        assert (H0m : 0 * ss < m) by lia.
+        pose proof (seek_dist (fuel_of a m) s 0 m H0m) as Hsk.
+        destruct (seek n asg (fuel_of a m) a s (0 * ss) m) as [c'|].
+        * destruct Hsk as (q' & -> & Hle & Hlt & Hown & Hskip).
+          destruct (N.eq_dec q' 0) as [->|Hne].
+          -- left. split; [lia | rewrite Hq00; exact Hown].
+          -- right. exists q'. rewrite Hq00. repeat split; try lia. intros q'' Hrq. apply Hskip. lia.
+        * intros q'' H1 H2. apply Hsk; [apply Hfuel | lia |].
+          destruct H2 as [->|H2]; [rewrite Hq00; lia | exact H2].
+      + apply negb_false_iff in E. apply N.eqb_eq in E.
+        unfold fuel_of. cbn [seek]. rewrite shepof_dist. fold ss q0. rewrite E, N.eqb_refl.
+        left. split; [reflexivity | first [reflexivity | exact E]].
   Qed.
 
-  Lemma strider_dist_covers s q0 stop i :
-    q0 * ss < stop ->
-    covers (strider n asg a s (q0 * ss) stop) i =
-    if (q0 * ss <=? i) && (i <? stop) && (asg (i / ss) =? s) then 1%nat else 0%nat.
+  Lemma strider_dist_covers s start stop i :
+    start < stop ->
+    covers (strider n asg a s start stop) i =
+    if (start <=? i) && (i <? stop) && (asg (i / ss) =? s) then 1%nat else 0%nat.
   Proof.
     intros Hne. unfold strider. rewrite K. fold ss.
-    pose proof (seek_start_dist s q0 stop Hne) as Hsk.
+    pose proof (seek_start_dist s start stop Hne) as Hsk.
     pose proof (div_bounds' i) as [Hlo Hhi]. set (qi := i / ss) in *.
-    destruct (seek_start n asg (fuel_of a stop) a s (q0 * ss) stop) as [c'|].
-    - destruct Hsk as (q' & -> & Hle & Hlt & Hown & Hskip).
-      rewrite covers_chunks_dist; [| exact Hlt | exact Hown | unfold fuel_of, ss; set (x := stop / d_segsize a); lia].
-      fold qi.
-      destruct (i <? stop) eqn:B; [|rewrite !andb_false_r; reflexivity]. apply N.ltb_lt in B.
-      destruct (q' * ss <=? i) eqn:A1.
-      + apply N.leb_le in A1. replace (q0 * ss <=? i) with true by nia. reflexivity.
-      + apply N.leb_gt in A1. cbn [andb].
-        destruct (q0 * ss <=? i) eqn:A2; [|reflexivity]. apply N.leb_le in A2. cbn [andb].
-        assert (Hx : asg qi <> s) by (apply Hskip; nia).
-        apply N.eqb_neq in Hx. rewrite Hx. reflexivity.
+    pose proof (div_bounds' start) as [Hslo Hshi]. set (q0 := start / ss) in *.
+    assert (Hfuel : forall q, (N.to_nat (stop / ss + 1 - q) <= fuel_of a stop)%nat).
+    { intros q. unfold fuel_of, ss. set (x := stop / d_segsize a). lia. }
+    destruct (seek_start n asg (fuel_of a stop) a s start stop) as [c'|].
+    - destruct Hsk as [[-> Hown]|(q' & -> & Hle & Hlt & Hown & Hskip)].
+      + rewrite covers_chunks_dist; [reflexivity | exact Hne | exact Hown | apply Hfuel].
+      + rewrite covers_chunks_dist; [| exact Hlt | rewrite N.div_mul by exact ss_ne'; exact Hown
+                                      | rewrite N.div_mul by exact ss_ne'; apply Hfuel].
+        fold qi.
+        destruct (i <? stop) eqn:B; [|rewrite !andb_false_r; reflexivity]. apply N.ltb_lt in B.
+        destruct (q' * ss <=? i) eqn:A1.
+        * apply N.leb_le in A1. replace (start <=? i) with true by nia. reflexivity.
+        * apply N.leb_gt in A1. cbn [andb].
+          destruct (start <=? i) eqn:A2; [|reflexivity]. apply N.leb_le in A2. cbn [andb].
+          assert (Hx : asg qi <> s) by (apply Hskip; nia).
+          apply N.eqb_neq in Hx. rewrite Hx. reflexivity.
     - cbn [covers].
-      destruct (q0 * ss <=? i) eqn:A2; [|reflexivity]. apply N.leb_le in A2.
+      destruct (start <=? i) eqn:A2; [|reflexivity]. apply N.leb_le in A2.
       destruct (i <? stop) eqn:B; [|reflexivity]. apply N.ltb_lt in B. cbn [andb].
-      assert (Hx : asg qi <> s) by (apply Hsk; nia).
+      assert (Hx : asg qi <> s).
+      { apply Hsk; [nia|]. destruct (N.eq_dec qi q0); [left; assumption | right; nia]. }
       apply N.eqb_neq in Hx. rewrite Hx. reflexivity.
   Qed.
 
   Lemma loop_strider_dist s start stop : loop_strider n asg a s start stop = strider n asg a s start stop.
   Proof. unfold loop_strider, strider. rewrite K. reflexivity. Qed.
 
-  Theorem iter_exact_dist_aligned start stop :
-    start mod ss = 0 -> start < stop ->
+  Theorem iter_exact_dist start stop :
+    start < stop ->
     iter_exact n asg a start stop (iter n asg a start stop) /\
     iter_exact n asg a start stop (iter_loop n asg a start stop).
   Proof.
-    intros Hal Hlt.
-    assert (Hq0 : start = (start / ss) * ss).
-    { pose proof (N.div_mod start ss ss_ne'). lia. }
-    set (q0 := start / ss) in *.
+    intros Hlt.
     assert (Hil : iter_loop n asg a start stop = iter n asg a start stop).
     { unfold iter_loop, iter. apply map_ext. intros s. rewrite loop_strider_dist. reflexivity. }
     rewrite Hil. assert (G : iter_exact n asg a start stop (iter n asg a start stop)); [|split; exact G].
     unfold iter, spawned. rewrite K. fold ss.
-    assert (Hne : q0 * ss < stop) by lia.
-    destruct (stop - start <? ss) eqn:Esmall.
-    - apply N.ltb_lt in Esmall.
+    pose proof (div_bounds' start) as [Hslo Hshi]. set (q0 := start / ss) in *.
+    destruct (q0 =? (stop - 1) / ss) eqn:Esmall.
+    - apply N.eqb_eq in Esmall.
+      pose proof (div_bounds' (stop - 1)) as [Hplo Hphi]. rewrite <- Esmall in Hplo, Hphi.
       assert (Hsh : shepof n asg a start = asg q0) by (rewrite shepof_dist; reflexivity).
       rewrite Hsh.
-      intros i. cbn [map total_covers fold_right snd]. rewrite Hq0. rewrite strider_dist_covers by exact Hne.
+      intros i. cbn [map total_covers fold_right snd]. rewrite strider_dist_covers by exact Hlt.
       pose proof (div_bounds' i) as [Hlo Hhi].
       split.
-      + intros Hin. assert (i / ss = q0) by nia.
-        replace (q0 * ss <=? i) with true by lia. replace (i <? stop) with true by lia. cbn [andb].
+      + intros Hin. assert (H : i / ss = q0) by nia.
+        replace (start <=? i) with true by lia. replace (i <? stop) with true by lia. cbn [andb].
         rewrite H, N.eqb_refl. split; [reflexivity|].
         intros s l [Heq|[]] _. inversion Heq; subst s l. rewrite shepof_dist, H. reflexivity.
-      + intros Hout. replace ((q0 * ss <=? i) && (i <? stop)) with false by lia. reflexivity.
+      + intros Hout. replace ((start <=? i) && (i <? stop)) with false by lia. reflexivity.
     - intros i. split.
       + intros Hin.
         rewrite (sum_indicator_all n asg a Hn Hss (fun s => strider n asg a s start stop) i (asg (i / ss))).
@@ -213,17 +240,17 @@ Section Dist.
           split; [reflexivity|].
           intros s l Hinl Hpos. apply in_map_iff in Hinl. destruct Hinl as (s' & Heq & Hs').
           inversion Heq; subst s l.
-          rewrite Hq0 in Hpos. rewrite strider_dist_covers in Hpos by exact Hne.
+          rewrite strider_dist_covers in Hpos by exact Hlt.
           rewrite shepof_dist. destruct (asg (i / ss) =? s') eqn:E; [apply N.eqb_eq in E; exact E|].
           rewrite andb_false_r in Hpos. inversion Hpos.
-        * intros s Hs. rewrite Hq0. rewrite strider_dist_covers by exact Hne.
-          replace (q0 * ss <=? i) with true by lia. replace (i <? stop) with true by lia. cbn [andb].
+        * intros s Hs. rewrite strider_dist_covers by exact Hlt.
+          replace (start <=? i) with true by lia. replace (i <? stop) with true by lia. cbn [andb].
           rewrite N.eqb_sym. reflexivity.
       + intros Hout.
         rewrite (sum_indicator_all n asg a Hn Hss (fun s => strider n asg a s start stop) i n).
         * rewrite N.ltb_irrefl. reflexivity.
-        * intros s Hs. rewrite Hq0. rewrite strider_dist_covers by exact Hne.
-          replace ((q0 * ss <=? i) && (i <? stop)) with false by lia. cbn [andb].
+        * intros s Hs. rewrite strider_dist_covers by exact Hlt.
+          replace ((start <=? i) && (i <? stop)) with false by lia. cbn [andb].
           replace (s =? n) with false by lia. reflexivity.
   Qed.
 End Dist.
